@@ -5,31 +5,56 @@ from hypothesis import strategies as st
 import pyfvtool as pf
 
 from . import gen
+from . import common
 from .common import AXES, apply_bc, bc_shape, dims_of, face_shapes, full_shape, interior, make_grid, mk_face
 
 SCHEMES = ('none', 'central', 'upwind', 'tvd')
 
 
 def build_var(P, m=None, init=None):
+    """solution variable of a problem.  P['bc_style'] = 'late' builds it with default BCs and edits them afterwards
+    (the two documented ways of giving a variable its boundary conditions)"""
     m = m or make_grid(P['name'], P['faces'])
+    v = common.lay(P['init'] if init is None else init)
+    if P.get('bc_style') == 'late':
+        phi = pf.CellVariable(m, v)
+        apply_bc(phi.BCs, P['bc'])
+        return m, phi.BCs, phi
     BC = apply_bc(pf.BoundaryConditions(m), P['bc'])
-    v = np.array(P['init'] if init is None else init, dtype=float)
     return m, BC, pf.CellVariable(m, v, BC)
 
 
 def cellvar(m, arr):
-    return pf.CellVariable(m, np.array(arr, dtype=float))
+    return pf.CellVariable(m, common.lay(arr))
 
 
-def spatial_terms(m, P, phi_for_tvd=None):
-    """list of spatial terms in solvePDE convention (sum of matrix terms * phi = sum of vector terms)"""
+def make_coefs(m, P):
+    """coefficient objects built ONCE (as a user does before a time loop) and reused by every step"""
+    c = {}
+    if P.get('D') is not None:
+        c['D'] = mk_face(m, P['D'])
+    if P.get('scheme', 'none') != 'none':
+        c['u'] = mk_face(m, P['u'])
+    if P.get('beta') is not None:
+        c['beta'] = cellvar(m, P['beta'])
+    if P.get('gamma') is not None:
+        c['gamma'] = cellvar(m, P['gamma'])
+    a = P.get('alpha', 1.0)
+    c['alpha'] = float(a) if np.isscalar(a) else cellvar(m, a)
+    return c
+
+
+def spatial_terms(m, P, phi_for_tvd=None, coefs=None):
+    """list of spatial terms in solvePDE convention (sum of matrix terms * phi = sum of vector terms); the terms are
+    rebuilt on every call, from the coefficient objects in `coefs` if given (time loop) or from fresh ones"""
     d = dims_of(P['faces'])
     tl = []
+    c = coefs if coefs is not None else make_coefs(m, P)
     if P.get('D') is not None:
-        tl.append(-pf.diffusionTerm(mk_face(m, P['D'])))
+        tl.append(-pf.diffusionTerm(c['D']))
     sch = P.get('scheme', 'none')
     if sch != 'none':
-        u = mk_face(m, P['u'])
+        u = c['u']
         if sch == 'central':
             tl.append(pf.convectionTerm(u))
         else:
@@ -37,9 +62,9 @@ def spatial_terms(m, P, phi_for_tvd=None):
             if sch == 'tvd':
                 tl.append(pf.convectionTVDupwindRHSTerm(u, phi_for_tvd, pf.fluxLimiter(P.get('FL', 'SUPERBEE'))))
     if P.get('beta') is not None:
-        tl.append(pf.linearSourceTerm(cellvar(m, P['beta'])))
+        tl.append(pf.linearSourceTerm(c['beta']))
     if P.get('gamma') is not None:
-        tl.append(pf.constantSourceTerm(cellvar(m, P['gamma'])))
+        tl.append(pf.constantSourceTerm(c['gamma']))
     return tl
 
 
@@ -50,17 +75,21 @@ def alpha_arg(m, P):
     return cellvar(m, a)
 
 
-def step_implicit(m, phi, P, dt=None):
+def step_implicit(m, phi, P, dt=None, coefs=None):
+    """one backward-Euler step; with `coefs` (see make_coefs) the step reuses the caller's coefficient objects, as the time
+    loops of the documentation do (terms re-assembled inside the loop from objects created before it)"""
     dt = P['dt'] if dt is None else dt
-    tl = [pf.transientTerm(phi, dt, alpha_arg(m, P))] + spatial_terms(m, P, phi)
+    alpha = coefs['alpha'] if coefs is not None else alpha_arg(m, P)
+    tl = [pf.transientTerm(phi, dt, alpha)] + spatial_terms(m, P, phi, coefs)
     return pf.solvePDE(phi, tl)
 
 
 def run_implicit(P, nsteps=None):
     m, BC, phi = build_var(P)
+    coefs = make_coefs(m, P)
     out = [np.array(phi._value)]
     for _ in range(nsteps or P.get('steps', 1)):
-        step_implicit(m, phi, P)
+        step_implicit(m, phi, P, coefs=coefs)
         out.append(np.array(phi._value))
     return m, phi, out
 
@@ -139,7 +168,7 @@ def problems(draw, classes=None, nmax=4, nmax3=3, periodic=True, p_periodic=0.25
         for ax, ent in enumerate(bc):
             if is_periodic(ent):
                 faces[ax] = symmetric_ends(faces[ax])
-    P = dict(name=name, faces=faces, bc=bc, spacing=g['spacing'])
+    P = dict(name=name, faces=faces, bc=bc, spacing=g['spacing'], bc_style=draw(st.sampled_from(['passed', 'late'])))
     P['init'] = draw(gen.cell_interior(d))
     P['scheme'] = draw(st.sampled_from(list(schemes)))
     P['D'] = draw(gen.diffusivity(d, zeros=False)) if (need_D or draw(st.booleans())) else None
